@@ -24,11 +24,13 @@ pub struct Cfg {
     pub max_cases: usize,
     pub datum_pct: u64,
     pub mint_pct: u64,
+    /// C09: datum/redeemer heavy programs, integers over the whole i128 range, long byte strings
+    pub datum_focus: bool,
 }
 
 impl Default for Cfg {
     fn default() -> Self {
-        Cfg { cardano_pct: 10, redeemers: true, risky_pct: 25, boundary_ints: false, max_txs: 2, balanced: false, min_utxo: false, max_cases: 4, datum_pct: 60, mint_pct: 40 }
+        Cfg { cardano_pct: 10, redeemers: true, risky_pct: 25, boundary_ints: false, max_txs: 2, balanced: false, min_utxo: false, max_cases: 4, datum_pct: 60, mint_pct: 40, datum_focus: false }
     }
 }
 
@@ -41,6 +43,8 @@ pub enum Role {
     Bytes(Option<usize>),
     Bool,
     Addr,
+    /// any i128 (datum / redeemer integers are unbounded)
+    BigInt,
     /// address carrying a stake credential (base address or stake address)
     StakeAddr,
     Ref,
@@ -334,6 +338,10 @@ impl<'r> Builder<'r> {
 
     fn int_atom(&mut self, pos: Pos) -> E {
         let risky = self.rng.below(100) < self.cfg.risky_pct;
+        if self.cfg.datum_focus && pos == Pos::Datum && self.rng.chance(1, 2) {
+            self.tag("datum-bigint-param");
+            return self.param(Ty::Int, Role::BigInt);
+        }
         match self.rng.below(12) {
             0 | 1 | 2 => self.lit_int(),
             3 | 4 | 5 => self.param(Ty::Int, Role::Int(1000, 2_000_000)),
@@ -1023,6 +1031,58 @@ impl<'r> Builder<'r> {
         self.g.txs.push(meta);
     }
 
+    /// C09: one funded input (with a record datum so that spread / field access are available), a
+    /// redeemer on it, and 1..4 outputs each carrying a datum.
+    fn gen_datum_tx(&mut self) {
+        self.cur = TxMeta::default();
+        self.cur_tx = TxDef { name: self.name("tx"), ..Default::default() };
+        self.int_locals.clear();
+        self.val_locals.clear();
+        let owner = self.party();
+        let t = self.some_type(Some(true));
+        let name = self.name("in");
+        let inp = Input { name: name.clone(), from: Some(E::Party(owner.clone())), datum_is: Some(Ty::Custom(self.g.prog.types[t].name.clone())), ..Default::default() };
+        self.cur.inputs.push((name.clone(), inp.datum_is.clone(), false));
+        self.cur_tx.inputs.push(inp);
+        let name2 = self.name("in");
+        let mut inp2 = Input { name: name2.clone(), from: Some(E::Party(owner.clone())), ..Default::default() };
+        inp2.redeemer = Some(self.any_datum(Pos::Datum));
+        self.tag("spend-redeemer");
+        self.cur.inputs.push((name2, None, false));
+        self.cur_tx.inputs.push(inp2);
+        for _ in 0..1 + self.rng.usize(4) {
+            let datum = if self.rng.chance(1, 5) {
+                // a plain type at the top
+                let ty = match self.rng.below(5) {
+                    0 => Ty::Int,
+                    1 => Ty::Bytes,
+                    2 => Ty::Bool,
+                    3 => Ty::List(Box::new(Ty::List(Box::new(Ty::Int)))),
+                    _ => Ty::Map(Box::new(Ty::Bytes), Box::new(Ty::List(Box::new(Ty::Int)))),
+                };
+                self.data_expr(&ty, Pos::Datum, 0)
+            } else {
+                self.any_datum(Pos::Datum)
+            };
+            self.cur_tx.outputs.push(Output { to: Some(E::Party(owner.clone())), amount: Some(E::Ada(Box::new(E::Int(2_000_000)))), datum: Some(datum), ..Default::default() });
+            self.tag("output-datum");
+        }
+        let tx = std::mem::take(&mut self.cur_tx);
+        self.g.prog.txs.push(tx);
+        let meta = std::mem::take(&mut self.cur);
+        self.g.txs.push(meta);
+    }
+
+    pub fn datum_program(mut self) -> Generated {
+        for _ in 0..1 + self.rng.usize(3) {
+            let rec = self.rng.chance(1, 2);
+            self.new_type(rec);
+        }
+        self.gen_datum_tx();
+        self.g.prog.tags = std::mem::take(&mut self.tags);
+        self.g
+    }
+
     fn validity_expr(&mut self) -> E {
         match self.rng.below(5) {
             0 => E::Int(crate::env::TIP_SLOT as i128 + self.rng.range(0, 100000) as i128),
@@ -1158,9 +1218,10 @@ fn role_value(d: &Decl, g: &Generated, rng: &mut Rng, cfg: &Cfg) -> V {
                 V::Int(BigInt::from(crate::env::TIP_TIME) + BigInt::from(1000 * rng.range(0, 1_000_000)))
             }
         }
+        Role::BigInt => V::Int(BigInt::from(rng.boundary_int())),
         Role::Bytes(Some(n)) => V::Bytes(rng.bytes(*n)),
         Role::Bytes(None) => {
-            let n = rng.usize(48);
+            let n = if cfg.datum_focus { *rng.pick(&[0usize, 1, 31, 32, 63, 64, 65, 100]) } else { rng.usize(48) };
             V::Bytes(rng.bytes(n))
         }
         Role::Bool => V::Bool(rng.bool()),
